@@ -372,7 +372,8 @@ class SGen:
     # ------------------------------------------------------------------ SELECT CASE
     def select(self, env, depth, in_loop):
         r = self.r
-        if r.random() < 0.2:
+        logical_sel = r.random() < 0.2
+        if logical_sel:
             sel = ("var", r.choice(LOG_SCALARS)) if r.random() < 0.7 else ("bin", r.choice(RELS), self.iexpr(env, 2), self.iexpr(env, 2))
             kinds = [[("v", ("blit", 1))], [("v", ("blit", 0))]]
             r.shuffle(kinds)
@@ -404,7 +405,9 @@ class SGen:
             clauses = [(g, self.block(env, depth + 1, in_loop, r.randint(1, 2))) for g in groups]
         if r.random() < 0.65:
             clauses.insert(r.randint(0, len(clauses)), (None, self.block(env, depth + 1, in_loop, r.randint(1, 2))))
-        if r.random() < 0.05:
+        # a construct with CASE DEFAULT only -- for integer selectors only: gfortran 12.2 does not execute the
+        # block of `select case (<logical>); case default; ...` (compiler defect; found by the differential run)
+        if r.random() < 0.05 and not logical_sel:
             clauses = [(None, self.block(env, depth + 1, in_loop, 1))]
         return ("select", sel, clauses)
 
